@@ -261,6 +261,25 @@ func c07Run(p c07Plan, r *vf.Rand) ([]c07Rec, bool) {
 
 	start := make(chan struct{})
 	threads := append(append([][]c07Op{}, p.Writers...), p.Readers...)
+	// half of the cases run in lock-step rounds (all goroutines start their k-th operation together),
+	// the other half run freely with seeded yield points
+	rounds := r.Chance(50)
+	maxOps := 0
+
+	for _, ops := range threads {
+		if len(ops) > maxOps {
+			maxOps = len(ops)
+		}
+	}
+
+	arrive := make([]atomic.Int32, maxOps)
+	need := make([]int32, maxOps)
+
+	for _, ops := range threads {
+		for i := range ops {
+			need[i]++
+		}
+	}
 
 	for ti, ops := range threads {
 		wg.Add(1)
@@ -278,7 +297,15 @@ func c07Run(p c07Plan, r *vf.Rand) ([]c07Rec, bool) {
 			<-start
 
 			for i, op := range ops {
-				if yield[i] {
+				if rounds {
+					arrive[i].Add(1)
+
+					for spin := 0; arrive[i].Load() < need[i] && spin < 200000; spin++ {
+						if spin%64 == 63 {
+							runtime.Gosched()
+						}
+					}
+				} else if yield[i] {
 					runtime.Gosched()
 				}
 
@@ -709,7 +736,8 @@ func TestVerifC07(t *testing.T) {
 			}
 		}
 
-		tags := []string{fmt.Sprintf("writers:%d", len(plan.Writers)), fmt.Sprintf("readers:%d", len(plan.Readers))}
+		tags := []string{fmt.Sprintf("writers:%d", len(plan.Writers)), fmt.Sprintf("readers:%d", len(plan.Readers)),
+			fmt.Sprintf("ops:%d", len(hist)/10*10)}
 		if rw > 0 {
 			tags = append(tags, "overlap:reader-writer")
 		}
